@@ -128,6 +128,49 @@ def kw_of(u: str, sel) -> dict:
     return kw
 
 
+HIST_NODES = 3  # modules that may carry an alias in the two-call histories
+ALT_ALIASES = ["Store", "B", "", "q.r"]
+
+
+def kw_hist(u: str, nodes: list, sel, call: int) -> dict:
+    """Keyword arguments of call number `call` of a two-call history on ONE architecture object: which of the first
+    HIST_NODES modules carry an alias, and which of two alias texts each of them gets, are symbolic per call."""
+    al = {}
+    for i, n in enumerate(nodes[:HIST_NODES]):
+        if sel(("h", call, "alias", n)):
+            al[n] = ALT_ALIASES[i % len(ALT_ALIASES)] if sel(("h", call, "alt", n)) else ALIASES[i % len(ALIASES)]
+    kw = {"aliases": al}
+    if sel(("h", call, "spacing")):
+        kw["spacing"] = 0.37 if call == 0 else 0.11
+    return kw
+
+
+def keys_hist(nodes: list) -> list:
+    out = []
+    for call in (0, 1):
+        for n in nodes[:HIST_NODES]:
+            out += [(("h", call, "alias", n), 2), (("h", call, "alt", n), 2)]
+        out.append((("h", call, "spacing"), 2))
+    return out
+
+
+def observe_hist(u: str, sel):
+    """Two visualize calls on the same (fresh) architecture object; each must be labelled per the label function of
+    ITS OWN alias map (nothing may be carried over from the first call)."""
+    ev, nodes = arch_of(u)
+    for call in (0, 1):
+        kw = kw_hist(u, nodes, sel, call)
+        o = observe_spacing(ev, nodes, kw)
+        if o[0] != "OK":
+            return ("MISMATCH", f"call {call + 1}: {o[1]}", f"call {call + 1}: {o[2]}")
+    return ("OK", "drawn twice")
+
+
+def observe_spacing(ev, nodes, kw):
+    o = observe(ev, nodes, {k: v for k, v in kw.items()})
+    return o
+
+
 def keys_of(u: str) -> list:
     nodes = nodes_of(u)
     extra = [(("alias", "<too-deep>"), 2)] if u in TOO_DEEP else []
@@ -138,6 +181,7 @@ def instances(tier: str) -> list[dict]:
     out = [{"part": "kernel", "name": k, "tier": tier} for k in kernel_names("vf.kernels.k17")]
     us = (["prefix-siblings", "nested"] if tier == "quick" else list(UNIVERSES)) + list(IMPLICIT)
     out += [{"part": "visualize", "universe": u} for u in us]
+    out += [{"part": "history", "universe": u} for u in (["prefix-siblings"] if tier == "quick" else ["prefix-siblings", "nested", "level-limited"])]
     return out
 
 
@@ -152,6 +196,15 @@ def work(inst: dict) -> dict:
         return res
     u = inst["universe"]
     ev, nodes = arch_of(u)
+    if inst["part"] == "history":
+
+        def fn_h():
+            return observe_hist(u, lambda k: ENGINE.branch(k))
+
+        def payload_h(assign):
+            return {"kind": "history", "universe": u, "nodes": nodes, "assign": [[list(k), v] for k, v in sorted(assign.items(), key=str)]}
+
+        return check_no_mismatch(label_of(inst), fn_h, CAP, payload_h, replay_detail, all_keys=keys_hist(nodes), sample={"universe": nodes, "history": "two visualize calls on one architecture object"})
 
     def fn():
         return observe(ev, nodes, kw_of(u, lambda k: ENGINE.branch(k)))
@@ -167,6 +220,13 @@ def replay_detail(payload: dict):
         return replay_kernel(payload)
     ev, nodes = arch_of(payload["universe"])
     assign = {tuple(k): v for k, v in payload["assign"]}
+    if payload["kind"] == "history":
+        sel = lambda k: assign.get(k, 0)  # noqa: E731
+        o = observe_hist(payload["universe"], sel)
+        calls = [kw_hist(payload["universe"], nodes, sel, c) for c in (0, 1)]
+        ok = o[0] == "OK"
+        text = f"visualize(**{calls[0]}) then visualize(**{calls[1]}) on the same architecture object (modules {nodes}): " + ("as specified" if ok else f"expected {o[1]}, drawing backend got {o[2]}")
+        return ok, text, {"outcome": [str(x) for x in o]}
     kw = kw_of(payload["universe"], lambda k: assign.get(k, 0))
     o = observe(ev, nodes, kw)
     ok = o[0] == "OK"
@@ -190,6 +250,7 @@ def run(tier: str, only: str | None = None) -> int:
         "universes": {u: UNIVERSES[u] for u in UNIVERSES},
         "implicit_universes": IMPLICIT,
         "alias_strings": ALIASES,
+        "histories": "two consecutive visualize calls on one architecture object; per call: alias present per module (first 3 modules), one of two alias texts per module, spacing (symbolic bits)",
         "options": ["aliases present/absent", "alias per module (one bit each)", "alias for a missing module", "spacing", "node_size", "ax"],
     }
     rep.assumptions = [
